@@ -150,6 +150,17 @@ def check_case(ctx, case):
         if not (0.0 <= q <= 1.0):
             ctx.violation(name + ":quantile_out_of_range", {"got": q})
 
+    # "extra_rows": the injected pool holds more rows than simulations are asked for; num_simulations stays the number of simulations
+    # (distribution length, denominator of the quantile).  Which rows are used is not prescribed: the per-row oracle is skipped then.
+    XR = int(case.get("extra_rows", 0))
+
+    def pool(U, width):
+        a = numpy.array(U, dtype=float).reshape(nsim, width)
+        if XR:
+            ctx.count("injected_pools_with_more_rows_than_simulations")
+            a = numpy.vstack([a] + [a[:1]] * XR)
+        return a
+
     # ------------------------------------------------ (a) injected path, Poisson
     if n_obs > 0:
         scale = n_obs / n_fore
@@ -161,7 +172,7 @@ def check_case(ctx, case):
                 ctx.count("skipped:unconstructible_draws:" + name)
                 continue
             ctx.count("injected_draws", nsim * n_obs)
-            o = call(fn, fore, S.catalog(region), num_simulations=nsim, random_numbers=numpy.array(U, dtype=float).reshape(nsim, n_obs))
+            o = call(fn, fore, S.catalog(region), num_simulations=nsim, random_numbers=pool(U, n_obs))
             if not o.ok:
                 ctx.unexpected(o, "poisson_" + name + "_injected")
                 continue
@@ -169,7 +180,7 @@ def check_case(ctx, case):
             if len(td) != nsim:
                 ctx.violation(name + ":distribution_length", {"got": len(td), "want": nsim})
                 continue
-            for i in range(nsim):
+            for i in range(nsim if not XR else 0):
                 want, at = G.poisson_ll(rates, counts_of(B[i], len(rates)))
                 if not G.close(float(td[i]), want, (1e-9 if not F32 else 3e-6) * (1 + at)):
                     ctx.violation("poisson_" + name + ":simulated_event_not_in_inverse_cdf_bin", {"sim": i, "got": float(td[i]), "want": want, "u": U[i][:6], "bins": B[i][:6]})
@@ -188,7 +199,7 @@ def check_case(ctx, case):
         if U is None:
             ctx.count("skipped:unconstructible_draws:" + name)
             continue
-        o = call(fn, fore, S.catalog(region), num_simulations=nsim, random_numbers=numpy.array(U, dtype=float).reshape(nsim, n_act))
+        o = call(fn, fore, S.catalog(region), num_simulations=nsim, random_numbers=pool(U, n_act))
         if not o.ok:
             ctx.unexpected(o, name + "_injected")
             continue
@@ -196,7 +207,7 @@ def check_case(ctx, case):
         if len(td) != nsim:
             ctx.violation(name + ":distribution_length", {"got": len(td), "want": nsim})
             continue
-        for i in range(nsim):
+        for i in range(nsim if not XR else 0):
             c = counts_of(B[i], len(weights))
             if oracle == "binary":
                 want, tol = G.binary_ll(weights, c)
@@ -436,6 +447,8 @@ def cases(draw, max_events=50):
     n = max(len(c["obs"]), 1)
     k = draw(st.integers(1, 6))
     modes = ["in", "in", "zero", "max"] + (["lo", "lo+", "lo-", "hi-"] if dyadic else [])
+    if draw(st.integers(0, 5)) == 0:
+        c["extra_rows"] = draw(st.integers(1, 3))
     c["sims"] = [[[draw(st.sampled_from(modes)), draw(st.floats(0, 0.999999)), draw(st.sampled_from([0.5, 0.1, 0.9, 0.01, 0.99]))]
                   for _ in range(n)] for _ in range(k)]
     c["seed"] = draw(SEEDS)
